@@ -50,7 +50,7 @@ func gres(entry, kind, detail, id string, ok bool, msg string) driver.ObResult {
 
 // basicVariants: when a path leaves a basic type's kind open across classes the
 // generator treats alike, the emitted text is checked once per class.
-func basicVariants(p *geval.Path) []map[*geval.SymType]string {
+func basicVariants(p *geval.Path, unnamedToo bool) []map[*geval.SymType]string {
 	type alt struct {
 		t    *geval.SymType
 		reps []string
@@ -91,6 +91,16 @@ func basicVariants(p *geval.Path) []map[*geval.SymType]string {
 			if _, ok := seen[cl]; !ok {
 				seen[cl] = types.Typ[bk].Name()
 				reps = append(reps, types.Typ[bk].Name())
+			}
+		}
+		if unnamedToo && f.Named == geval.Unknown {
+			// the path does not say whether the basic type is named: both readings
+			// ("u:" marks the predeclared type itself)
+			if len(reps) == 0 {
+				reps = []string{"int"}
+			}
+			for _, r := range append([]string(nil), reps...) {
+				reps = append(reps, "u:"+r)
 			}
 		}
 		if len(reps) > 1 {
@@ -205,7 +215,7 @@ func RunEntry(l *driver.Loaded, b *Builder, entryKey string, opt RunOpts) (*Entr
 		// o-fork: case distinctions the property makes although the generator
 		// does not (e.g. whether an element type is comparable)
 		forks := forkVariants(b, con, p, genArgs)
-		bvs := basicVariants(p)
+		bvs := basicVariants(p, len(con.Attrs["basic-unnamed-variants"]) > 0)
 		nvar := 0
 		for _, fk := range forks {
 			for _, variant := range bvs {
@@ -263,14 +273,31 @@ func RunEntry(l *driver.Loaded, b *Builder, entryKey string, opt RunOpts) (*Entr
 				rep.Results = append(rep.Results, ores(entryKey, "header", "", vid, len(hd) == 0, strings.Join(hd, "; ")+" on path "+desc, in.Src))
 				own := in.CheckOwnership()
 				rep.Results = append(rep.Results, ores(entryKey, "ownership", "inputs-unmodified", vid, len(own) == 0, strings.Join(own, "; ")+" on path "+desc, in.Src))
-				if opt.NoVC || len(con.Attrs["o-ensures"]) == 0 && len(con.Attrs["serves"]) == 0 {
+				if opt.NoVC || len(con.Attrs["o-ensures"]) == 0 && len(con.Attrs["serves"]) == 0 && len(con.Attrs["o-rel-ensures"]) == 0 {
 					continue
 				}
 				if only := con.Attr("o-only"); only != "" && !strings.Contains(","+PathTag(p)+",", ","+only+",") {
 					rep.TextOnly++
 					continue
 				}
-				e, err := in.Verify()
+				textOnly := false
+				for _, t := range con.Attrs["o-text-only"] {
+					if strings.Contains(","+PathTag(p)+",", ","+strings.TrimSpace(t)+",") {
+						textOnly = true
+					}
+				}
+				if textOnly {
+					rep.TextOnly++
+					continue
+				}
+				var err error
+				if len(con.Attrs["o-rel-ensures"]) > 0 || in.definesRel() {
+					err = in.BuildProduct()
+				}
+				var e *vc.Engine
+				if err == nil {
+					e, err = in.Verify()
+				}
 				if err != nil {
 					// the contract no longer fits the emitted code (a loop it names is gone,
 					// a name it uses is not declared, ...): the proof that exists for the
@@ -285,7 +312,7 @@ func RunEntry(l *driver.Loaded, b *Builder, entryKey string, opt RunOpts) (*Entr
 					// further paths of the same function differ only in type facts
 					var keep []*vc.Obligation
 					for _, o := range e.Obls {
-						if !o.ExpectSat {
+						if !o.ExpectSat || strings.Contains(o.Name, "lemma-axioms") {
 							keep = append(keep, o)
 						}
 					}
@@ -422,7 +449,7 @@ func forkVariants(b *Builder, con interface{ Attr(string) string }, p *geval.Pat
 	tmp0 := &Instance{Path: p, Names: map[*geval.SymType]string{}, B: b, imports: map[string]string{}, Callees: map[string]*geval.Hole{}, Helpers: map[string]*geval.Hole{}}
 	for _, f := range tmp0.pickGuarded(c.AttrList("o-fork"), genArgs, p.Decisions) {
 		ws := strings.Fields(f)
-		if len(ws) != 2 || (ws[0] != "comparable" && ws[0] != "nilable") {
+		if len(ws) != 2 || (ws[0] != "comparable" && ws[0] != "nilable" && ws[0] != "flat") {
 			continue
 		}
 		tmp := &Instance{Path: p, Names: map[*geval.SymType]string{}, B: b, imports: map[string]string{}, Callees: map[string]*geval.Hole{}, Helpers: map[string]*geval.Hole{}}
@@ -431,6 +458,13 @@ func forkVariants(b *Builder, con interface{ Attr(string) string }, p *geval.Pat
 			continue
 		}
 		key := "o-fork.IsComparable(" + t.R().Desc + ")"
+		if ws[0] == "flat" {
+			// a value type: comparable and free of references (== is structural equality)
+			if f := p.Facts[t.R()]; f != nil && f.Kind != geval.KUnknown {
+				continue
+			}
+			key = "o-fork.canEqual(" + t.R().Desc + ")"
+		}
 		if ws[0] == "nilable" {
 			if f := p.Facts[t.R()]; f != nil && f.Kind != geval.KUnknown {
 				continue // the path knows the kind already
